@@ -275,9 +275,20 @@ def custom(ctx, obs, rule='FWD'):
               where(prog, f, f.node))
     for c in calls:
         e = inl.inline(c.node.args[0]) if c.node.args else None
-        ok = e is not None and isinstance(e, ast.Call) and _leaf(e.func) == 'get_vectors'
-        obs.check(ok, rule, q, 'the function is applied to the vector form of the source',
-                  f'fun is applied to `{ast.unparse(e) if e is not None else None}`', '', where(prog, f, c.node))
+        # value-preserving wrappers around the vector form (a private copy, an array conversion) are peeled
+        while isinstance(e, ast.Call) and ((isinstance(e.func, ast.Attribute) and e.func.attr in ('copy', 'astype') and not (
+                isinstance(e.func.value, ast.Name) and e.func.value.id in ('np', 'numpy'))) or (_leaf(e.func) in ('array', 'asarray', 'copy', 'deepcopy')
+                                                                                                and e.args)):
+            e = e.func.value if isinstance(e.func, ast.Attribute) and e.func.attr in ('copy', 'astype') and not (
+                isinstance(e.func.value, ast.Name) and e.func.value.id in ('np', 'numpy')) else e.args[0]
+        con = 'the function is applied to the vector form of the source'
+        if isinstance(e, ast.Call) and _leaf(e.func) == 'get_vectors':
+            obs.ok(rule, q, con, '', where(prog, f, c.node))
+        elif isinstance(e, ast.Call) and _leaf(e.func) == 'get_matrices':
+            obs.bad(rule, q, con, f'fun is applied to `{ast.unparse(e)}`: the matrix form (diagonal and both triangles), not the vector '
+                    f'of dissimilarities', where(prog, f, c.node))
+        else:
+            obs.unk(rule, q, con, f'fun is applied to `{ast.unparse(e)[:60] if e is not None else None}`', where(prog, f, c.node))
 
 
 def stale_masks(ctx, obs, rule='STALE-MASK'):
